@@ -142,7 +142,8 @@ package store
 //@ interface store.PoolStore.UpdateNodePeers(nodeID, peers, blockNumber) (inactive, err)
 //@ defines [effect]  effects >= old(effects) && (err != nil ==> effects == old(effects))
 //@ ensures [errkind] plainError(err)
-//@ modifies effects
+//@ ensures [frame]   sameCredit(this) && this.total == old(this.total) && this.reg == old(this.reg)
+//@ modifies effects, this.node
 
 //@ interface store.PoolStore.NodePeers(nodeID) (result, err)
 //@ ensures [errkind] plainError(err)
